@@ -155,7 +155,7 @@ def tlc_model_check(name, module, cfg, workers=8, timeout=1800, xmx="8g", extra=
     if st:
         res["states"] = st["distinct"]
         res["transitions"] = st["generated"]
-    m = re.search(r"Invariant (\S+) is violated|Temporal properties were violated|Action property (\S+) is violated", out)
+    m = re.search(r"Invariant (\S+) is violated|Temporal properties were violated|Temporal property (\S+) was violated|Action property (\S+) is violated", out)
     if m:
         res["violated"] = m.group(0)
     if not res["ok"]:
@@ -163,6 +163,7 @@ def tlc_model_check(name, module, cfg, workers=8, timeout=1800, xmx="8g", extra=
     # coverage: actions never taken
     never = re.findall(r"<(\w+) line \d+, col \d+ to line \d+, col \d+ of module \w+>: 0:0", out)
     res["actions_never_taken"] = sorted(set(never))
+    log("TLC %s: %s distinct states, %.1fs, ok=%s%s" % (name, res.get("states"), res["wall_s"], res["ok"], (" violated=" + res["violated"]) if res.get("violated") else ""))
     return res
 
 
